@@ -18,6 +18,7 @@ pub fn dispatch(case: &Value) -> Value {
         "yamlval" => crate::obs::yaml_values(case),
         "stable" => stable(case),
         "runs" => runs(case),
+        "steps" => steps(case),
         m => json!({"ev": "harness-error", "msg": format!("unknown mode {m}")}),
     }
 }
@@ -539,4 +540,107 @@ fn runs(case: &Value) -> Value {
         all.push(Value::Array(v));
     }
     json!({"ev": "runs", "runs": all})
+}
+
+
+/// As-built binding (PassLoop.tla / Trace_PassLoop.tla): record every critical
+/// section of the dataflow pass loops while the standard pipeline (and then the
+/// passes named in `history`) run.  Node identities are replaced by small
+/// integers (order of first appearance) and facts by integers per program.
+#[cfg(rva_verif)]
+fn steps(case: &Value) -> Value {
+    let (files, base) = files_of(case);
+    let reader = MemReader::new(files);
+    let mut parser = RVParser::new(reader);
+    let (nodes, errors) = parser.parse_from_file(&base, false);
+    let hist: Vec<String> = case["history"]
+        .as_array()
+        .map(|a| a.iter().map(|x| x.as_str().unwrap_or("").to_string()).collect())
+        .unwrap_or_default();
+    let _ = take_sweeps();
+    riscv_analysis::verif_hooks::trace_on();
+    let mut standard = 0usize; // number of events of the standard pipeline; the rest are extra runs
+    let mut lines: Vec<String> = vec![];
+    let ok = match Manager::gen_full_cfg(nodes) {
+        Ok(mut cfg) => {
+            lines = riscv_analysis::verif_hooks::trace_take();
+            standard = lines.len();
+            riscv_analysis::verif_hooks::trace_on();
+            for p in &hist {
+                let _ = match p.as_str() {
+                    "A" => AvailableValuePass::run(&mut cfg),
+                    "E" => EcallTerminationPass::run(&mut cfg),
+                    "L" => LivenessPass::run(&mut cfg),
+                    _ => Ok(()),
+                };
+            }
+            true
+        }
+        Err(_) => false,
+    };
+    lines.extend(riscv_analysis::verif_hooks::trace_take());
+    if !ok {
+        standard = lines.len();
+    }
+    let _ = take_sweeps();
+    let mut ids: HashMap<String, i64> = HashMap::new();
+    let mut facts: HashMap<String, i64> = HashMap::new();
+    let mut evs = vec![];
+    fn intern(m: &mut HashMap<String, i64>, k: &str) -> i64 {
+        let n = m.len() as i64 + 1;
+        *m.entry(k.to_string()).or_insert(n)
+    }
+    fn set(m: &mut HashMap<String, i64>, v: &Value) -> Value {
+        let mut out: Vec<i64> = v
+            .as_array()
+            .map(|a| a.iter().map(|x| intern(m, x.as_str().unwrap_or(""))).collect())
+            .unwrap_or_default();
+        out.sort_unstable();
+        json!(out)
+    }
+    for (k, l) in lines.iter().enumerate() {
+        let Ok(mut e) = serde_json::from_str::<Value>(l) else {
+            return json!({"ev": "harness-error", "msg": format!("bad hook line {l}")});
+        };
+        match e["ev"].as_str().unwrap_or("") {
+            "begin" => {
+                // a new Cfg object has new facts but the same parser-node identities
+                let arr = e["nodes"].as_array().cloned().unwrap_or_default();
+                let mut ns = vec![];
+                for n in &arr {
+                    let id = intern(&mut ids, n["id"].as_str().unwrap_or(""));
+                    ns.push(json!({
+                        "id": id,
+                        "prevs": set(&mut ids, &n["prevs"]),
+                        "nexts": set(&mut ids, &n["nexts"]),
+                        "in": set(&mut facts, &n["in"]),
+                        "out": set(&mut facts, &n["out"]),
+                        "udef": set(&mut facts, &n["udef"]),
+                    }));
+                }
+                e["nodes"] = json!(ns);
+            }
+            "visit" => {
+                e["id"] = json!(intern(&mut ids, e["id"].as_str().unwrap_or("")));
+                e["in"] = set(&mut facts, &e["in"].clone());
+                e["out"] = set(&mut facts, &e["out"].clone());
+                e["udef"] = set(&mut facts, &e["udef"].clone());
+            }
+            "sweep_end" => {
+                let p = e["promoted"].as_str().unwrap_or("").to_string();
+                e["promoted"] = json!(if p.is_empty() { 0 } else { intern(&mut ids, &p) });
+            }
+            _ => {}
+        }
+        e["rerun"] = json!(k >= standard);
+        evs.push(e);
+    }
+    let mut table: Vec<(i64, String)> = facts.into_iter().map(|(k, v)| (v, k)).collect();
+    table.sort();
+    json!({"ev": "steps", "ok": ok, "nerrors": errors.len(), "events": evs,
+           "facts": table.into_iter().map(|(_, k)| k).collect::<Vec<_>>()})
+}
+#[cfg(not(rva_verif))]
+fn steps(_case: &Value) -> Value {
+    json!({"ev": "harness-error", "msg": "built without --cfg rva_verif"})
 }
